@@ -133,9 +133,10 @@ class ExpectedResponse(asyncio.Future):
                 except AttributeError:
                     return False
                 else:
-                    return expected_value(actual_value)
+                    if not expected_value(actual_value):
+                        return False
 
-            if getattr(response, fname, None) != expected_value:
+            elif getattr(response, fname, None) != expected_value:
                 return False
 
         return True
